@@ -49,6 +49,8 @@ func stressLines(r *RNG, n int) []string {
 			out = append(out, fmt.Sprintf(":%s!u@h NICK %s", nk, nn), fmt.Sprintf(":%s!u@h NICK %s", nn, nk))
 		case 3:
 			out = append(out, fmt.Sprintf(":Bob!u@h MODE %s +o-v+k %s %s key", ch, nk, nk))
+			// the same modes set again with other arguments (a mode list edited in place would be visible to snapshot readers)
+			out = append(out, fmt.Sprintf(":Bob!u@h MODE %s +lk %d key%d", ch, 10+i%7, i%5), fmt.Sprintf(":srv 324 me %s +ntl %d", ch, 20+i%3))
 		case 4:
 			out = append(out, fmt.Sprintf(":srv 353 %s = %s :@%s +eve", me, ch, nk))
 		case 5:
@@ -432,7 +434,7 @@ func runC12(c *Ctx) {
 	c.R.Rule = "race-detector-instrumented stress (worker = the harness built with -race): an event stream of joins, parts, nick/mode changes, NAMES, CAP NEW/DEL/ACK, KICK/QUIT/TOPIC/WHOX/AWAY and own-nick changes against concurrent readers of every getter (and of the snapshots' methods), senders, registrars (Add/AddBg/AddTmp/Remove/Clear/Count/Len, CTCP.Set/Clear), handlers that call back into the client, and a closer (at the end, mid-stream, and across three reconnects), under GOMAXPROCS 1/2/16; a detector report or a watchdog timeout is a violation; non-trivial = every scenario"
 	n := 0
 	// the deterministic callback scenarios first (they are quick and name the blocked call), then the stress
-	for _, ev := range []string{"CTCP", "HANDLERS", "RECONNECTPOLL", girc.STS_ERR_FALLBACK, girc.INITIALIZED, girc.DISCONNECTED} {
+	for _, ev := range []string{"CTCP", "HANDLERS", "CTCPDEFAULTS", "RECONNECTPOLL", girc.STS_ERR_FALLBACK, girc.INITIALIZED, girc.DISCONNECTED} {
 		c.run("callback12", map[string]string{"event": ev})
 		n++
 	}
@@ -504,6 +506,47 @@ func init() {
 				c.R.Mismatch("callback12.not_emitted", hin, "the CTCP handler was not invoked", "")
 			}
 			c.R.Count("callback/CTCP", true, "callback")
+			return
+		}
+		if in["event"] == "CTCPDEFAULTS" {
+			// the library's own CTCP repliers run in their own goroutines and answer through the flood-limited Send: with flood
+			// protection ON (the default) none of them may keep a lock that Send, the queries or the teardown need
+			cl4 := girc.New(girc.Config{Server: "irc.example.org", Port: 6667, Nick: "me", User: "me", Name: "me"})
+			d, err := newDispClientFor(cl4)
+			if err != nil {
+				c.R.Mismatch("callback12.setup", hin, err.Error(), "")
+				return
+			}
+			for _, q := range []string{"FINGER", "VERSION", "TIME", "PING 1", "SOURCE", "FINGER"} {
+				d.send(":bob!b@h PRIVMSG me :\x01" + q + "\x01")
+			}
+			ok := d.barrier("afterctcp")
+			time.Sleep(50 * time.Millisecond)
+			probe := make(chan struct{})
+			go func() {
+				_ = cl4.IsConnected()
+				_ = cl4.Latency()
+				cl4.Cmd.Ping("probe")
+				close(probe)
+			}()
+			stuck := ""
+			select {
+			case <-probe:
+			case <-time.After(3 * time.Second):
+				stuck = "IsConnected()/Latency()/Cmd.Ping blocked after the default CTCP repliers ran"
+			}
+			closed := make(chan struct{})
+			go func() { d.close(); close(closed) }()
+			select {
+			case <-closed:
+			case <-time.After(8 * time.Second):
+				stuck += "; Close()/Connect teardown did not finish"
+			}
+			if !ok || stuck != "" {
+				c.R.Violation("callback12.deadlock", hin, fmt.Sprintf("barrier answered=%v %s", ok, stuck), "", "the library's CTCP repliers answer requests while holding nothing that Send, the queries or the teardown need; none blocks forever")
+				return
+			}
+			c.R.Count("callback/CTCPDEFAULTS", true, "callback")
 			return
 		}
 		if in["event"] == "RECONNECTPOLL" {
